@@ -1,4 +1,5 @@
 import SMGo.Proofs.FiatPrim
+import SMGo.Proofs.FiatSmallP
 /-
   Modulus-independent blocks of the Fiat-Crypto word-by-word Montgomery code (property C16):
   a row product x·(b0..b3) as five limbs, carry-chain additions, the reduction addition with
@@ -7,6 +8,7 @@ import SMGo.Proofs.FiatPrim
 -/
 namespace SMGo.Proofs.Fiat
 open SMGo SMGo.Model.FiatPrim
+open SMGo.Proofs.FiatSmallP (v4 v4_lt chain_sub chain_add)
 
 /-- five limbs below 2^64 with value `v` -/
 def L5 (l : List Nat) (v : Nat) : Prop :=
@@ -147,25 +149,24 @@ def condSub (m0 m1 m2 m3 : Nat) (t : List Nat) : List Nat :=
    cmov b4 (sub64d (t.getD 2 0) m2 b1) (t.getD 2 0),
    cmov b4 (sub64d (t.getD 3 0) m3 b2) (t.getD 3 0)]
 
+theorem condSub_final {A M T d4 t4 b3 b4 v : Nat}
+    (hA : A < 115792089237316195423570985008687907853269984665640564039457584007913129639936)
+    (hM : M < 115792089237316195423570985008687907853269984665640564039457584007913129639936)
+    (hT : T < 115792089237316195423570985008687907853269984665640564039457584007913129639936)
+    (e : A + M + 0 = T + b3 * 115792089237316195423570985008687907853269984665640564039457584007913129639936)
+    (e4 : d4 + 0 + b3 = t4 + b4 * 18446744073709551616)
+    (hd4 : d4 < 18446744073709551616) (ht4 : t4 < 18446744073709551616) (hb3 : b3 ≤ 1) (hb4 : b4 ≤ 1)
+    (hv : T + t4 * 115792089237316195423570985008687907853269984665640564039457584007913129639936 = v)
+    (hv2 : v < 2 * M) :
+    (b4 = 0 ∧ A < M ∧ v = A + M) ∨ (b4 = 1 ∧ T < M ∧ v = T) := by
+  omega
+
 theorem condSub_spec {m0 m1 m2 m3 : Nat} {t : List Nat} {v : Nat}
     (hm0 : m0 < 18446744073709551616) (hm1 : m1 < 18446744073709551616)
     (hm2 : m2 < 18446744073709551616) (hm3 : m3 < 18446744073709551616)
-    (ht : L5 t v)
-    (hv : v < 2 * (m0 + m1 * 18446744073709551616 + m2 * 340282366920938463463374607431768211456
-      + m3 * 6277101735386680763835789423207666416102355444464034512896)) :
-    ∃ o0 o1 o2 o3, condSub m0 m1 m2 m3 t = [o0, o1, o2, o3] ∧
-      o0 < 18446744073709551616 ∧ o1 < 18446744073709551616 ∧ o2 < 18446744073709551616 ∧
-      o3 < 18446744073709551616 ∧
-      o0 + o1 * 18446744073709551616 + o2 * 340282366920938463463374607431768211456
-        + o3 * 6277101735386680763835789423207666416102355444464034512896
-        < m0 + m1 * 18446744073709551616 + m2 * 340282366920938463463374607431768211456
-          + m3 * 6277101735386680763835789423207666416102355444464034512896 ∧
-      (v = o0 + o1 * 18446744073709551616 + o2 * 340282366920938463463374607431768211456
-        + o3 * 6277101735386680763835789423207666416102355444464034512896 ∨
-       v = o0 + o1 * 18446744073709551616 + o2 * 340282366920938463463374607431768211456
-        + o3 * 6277101735386680763835789423207666416102355444464034512896
-        + (m0 + m1 * 18446744073709551616 + m2 * 340282366920938463463374607431768211456
-          + m3 * 6277101735386680763835789423207666416102355444464034512896)) := by
+    (ht : L5 t v) (hv : v < 2 * v4 m0 m1 m2 m3) :
+    Canon (v4 m0 m1 m2 m3) (condSub m0 m1 m2 m3 t) ∧
+      eval (condSub m0 m1 m2 m3 t) = v % v4 m0 m1 m2 m3 := by
   obtain ⟨t0, t1, t2, t3, t4, rfl, ht0, ht1, ht2, ht3, ht4, hvt⟩ := ht
   simp only [condSub, List.getD_cons_zero, List.getD_cons_succ]
   obtain ⟨e0, hd0, hb0⟩ := sub64_spec ht0 hm0 (Nat.zero_le 1)
@@ -183,11 +184,19 @@ theorem condSub_spec {m0 m1 m2 m3 : Nat} {t : List Nat} {v : Nat}
   obtain ⟨e4, hd4, hb4⟩ := sub64_spec ht4 (show 0 < 18446744073709551616 by omega) hb3
   generalize sub64d t4 0 b3 = d4 at *
   generalize sub64b t4 0 b3 = b4 at *
-  have hb4' : b4 = 0 ∨ b4 = 1 := by omega
-  rcases hb4' with rfl | rfl
+  have hch := chain_sub e0 e1 e2 e3
+  have hfin := condSub_final (v4_lt hd0 hd1 hd2 hd3) (v4_lt hm0 hm1 hm2 hm3) (v4_lt ht0 ht1 ht2 ht3)
+    hch e4 hd4 ht4 hb3 hb4 hvt hv
+  rcases hfin with ⟨rfl, h1, h2⟩ | ⟨rfl, h1, h2⟩
   · rw [cmov_zero _ hd0, cmov_zero _ hd1, cmov_zero _ hd2, cmov_zero _ hd3]
-    refine ⟨d0, d1, d2, d3, rfl, hd0, hd1, hd2, hd3, ?_, ?_⟩ <;> omega
+    refine ⟨canon_mk hd0 hd1 hd2 hd3 h1, ?_⟩
+    rw [eval_four]
+    show v4 d0 d1 d2 d3 = v % v4 m0 m1 m2 m3
+    rw [h2, Nat.add_mod_right, Nat.mod_eq_of_lt h1]
   · rw [cmov_one _ ht0, cmov_one _ ht1, cmov_one _ ht2, cmov_one _ ht3]
-    refine ⟨t0, t1, t2, t3, rfl, ht0, ht1, ht2, ht3, ?_, ?_⟩ <;> omega
+    refine ⟨canon_mk ht0 ht1 ht2 ht3 h1, ?_⟩
+    rw [eval_four]
+    show v4 t0 t1 t2 t3 = v % v4 m0 m1 m2 m3
+    rw [h2, Nat.mod_eq_of_lt h1]
 
 end SMGo.Proofs.Fiat
